@@ -469,16 +469,53 @@ def main():
                               {"initial": iname, "commands": hist + ["backup", "install-" + other, "restore"]})
         states_seen |= seen
 
+    # the round trip as one real chain of tool runs on one tree (nothing is re-materialised in between, so anything the
+    # tool keeps for itself between commands stays where it put it), with an installation that succeeds and with one that
+    # fails half-way: the new package lacks its unit file, the executable / configuration / eBPF object are already
+    # replaced when the tool gives up (exit 1) - the very case a roll-back exists for
+    chains = 0
+    chains_failed_install = 0
+    if not only:
+        for iname, init in inits:
+            if not all(v in ("A", "B", "E") for v in init.sys):
+                continue
+            other = "B" if init.sys[0] == "A" else "A"
+            for install_fails in (False, True):
+                materialize(init)
+                rc1, _ = run_tool("backup")
+                for k in FILES:
+                    put(PKG[k], content(k, other), MODES[k], T0 - 100)
+                if install_fails:
+                    os.unlink(PKG["unit"])
+                rc2, _ = run_tool("install-" + other)
+                mid = observe()
+                rc3, out3 = run_tool("restore")
+                fin = observe()
+                chains += 1
+                transitions += 3
+                case = {"initial": iname, "commands": ["backup", "install-" + other + (" (package without its unit file)" if install_fails else ""), "restore"], "family": "real-chain"}
+                if install_fails and (rc2 == 0 or mid.sys[0] == init.sys[0]):
+                    # the scenario did not come about (the tool refused before touching anything): nothing to judge
+                    continue
+                if install_fails:
+                    chains_failed_install += 1
+                if fin.sys != init.sys:
+                    violation("upgrade-not-reversible:real-chain" + (":installation-failed-half-way" if install_fails else ""),
+                              "backup; install %s%s (exit %d, system then %s); restore (exit %d) from system %s ended with system %s (order: exe, config, ebpf, unit)"
+                              % (other, " from a package without its unit file" if install_fails else "", rc2, mid.sys, rc3, init.sys, fin.sys), case)
+                elif fin.svc != "active":
+                    violation("service-not-started-afterwards:restore:real-chain", "after backup, install%s, restore the service is in state '%s'" % (" (failed half-way)" if install_fails else "", fin.svc), case)
     res["violations"] = list(viol.values())
     res["coverage"] = {
         "states": len(states_seen), "transitions": transitions, "traces_validated_against_impl": transitions,
-        "headline_round_trips": headline, "headline_round_trips_from_installations_lacking_a_file": headline_partial, "strace_write_set_audits": trace_audits, "depth_bound": depth, "exhaustive": True,
-        "rule": "BFS to depth %d over {backup, install (package A or B beside the tool), restore, uninstall service, uninstall package, purge} from 10 initial states (incl. one with an empty configuration file, one without configuration file, one without eBPF object) (nothing installed; A installed; A + backup of A; A + stale backup of B; A (+ backup) with the service crash-looping ('activating'); A + backup with the service stopped), deduplicated on the canonical file tree (version of each of the four system files and four backup files) and the service's run state; every transition runs the real release build of proxy_agent_setup on a freshly materialised tree with a recording, stateful systemctl stand-in (run state active / activating / inactive; is-active, stop, start, enable, disable answer and fail as documented for systemctl, e.g. disable of a unit without unit file exits 1); install and restore are judged on 'no system file changes while the service is not stopped' and 'started afterwards, after the last file' from the fingerprints the stand-in takes at every call (query verbs are not judged); from every reachable installation the round trip backup, install other version, restore is executed (complete installation: all four files as before; installation lacking a file, e.g. after 'uninstall service': the files that were there as before); the two versions of the executable and of the unit have equal length, the configuration grows and the eBPF object shrinks from A to B; realistic mtimes (package < backup < installed)" % depth,
+        "headline_round_trips": headline, "real_chain_round_trips": chains, "real_chain_round_trips_with_an_installation_that_failed_half_way": chains_failed_install, "headline_round_trips_from_installations_lacking_a_file": headline_partial, "strace_write_set_audits": trace_audits, "depth_bound": depth, "exhaustive": True,
+        "rule": "BFS to depth %d over {backup, install (package A or B beside the tool), restore, uninstall service, uninstall package, purge} from 10 initial states (incl. one with an empty configuration file, one without configuration file, one without eBPF object) (nothing installed; A installed; A + backup of A; A + stale backup of B; A (+ backup) with the service crash-looping ('activating'); A + backup with the service stopped), deduplicated on the canonical file tree (version of each of the four system files and four backup files) and the service's run state; every transition runs the real release build of proxy_agent_setup on a freshly materialised tree with a recording, stateful systemctl stand-in (run state active / activating / inactive; is-active, stop, start, enable, disable answer and fail as documented for systemctl, e.g. disable of a unit without unit file exits 1); install and restore are judged on 'no system file changes while the service is not stopped' and 'started afterwards, after the last file' from the fingerprints the stand-in takes at every call (query verbs are not judged); from every reachable installation the round trip backup, install other version, restore is executed (complete installation: all four files as before; installation lacking a file, e.g. after 'uninstall service': the files that were there as before); the two versions of the executable and of the unit have equal length, the configuration grows and the eBPF object shrinks from A to B; realistic mtimes (package < backup < installed); plus, from every complete initial installation, the round trip as ONE real chain of three tool runs on one tree (nothing re-materialised in between), once with an installation that succeeds and once with one that fails half-way (the new package lacks its unit file: three files already replaced, exit 1)" % depth,
         "samples": samples,
     }
     res["assumptions"] = ["restore always deletes the backup: the release CLI accepts no value for delete_backup",
                           "restore from a backup that lacks the unit file is not specified by the statement and is not judged",
-                          "the setup directory lies under /usr/local (same mount as /usr/sbin, /usr/lib)"]
+                          "the setup directory lies under /usr/local (same mount as /usr/sbin, /usr/lib)",
+                          "BFS transitions materialise each state from the versions of the files the statement names; anything else the tool might keep between commands is only carried along in the real-chain round trips"]
     res["wall_s"] = time.time() - t_start
     out = os.environ.get("VERIF_RESULT")
     if out:
